@@ -72,6 +72,28 @@ type ReplayFile struct {
 	CodeFingerprint string  `json:"code_fingerprint"`
 }
 
+// RepoDir is the tree under test (VERIF_REPO, default /repo).
+func RepoDir() string {
+	if d := os.Getenv("VERIF_REPO"); d != "" {
+		return d
+	}
+	return "/repo"
+}
+
+func evidenceDir(verifDir string) string {
+	if d := os.Getenv("VERIF_EVIDENCE_DIR"); d != "" {
+		return d
+	}
+	return filepath.Join(verifDir, "evidence")
+}
+
+func replayDir(verifDir string) string {
+	if d := os.Getenv("VERIF_REPLAY_DIR"); d != "" {
+		return d
+	}
+	return filepath.Join(verifDir, "replays")
+}
+
 func replayPath(verifDir string, rf *ReplayFile) string {
 	h := sha256.New()
 	h.Write([]byte(rf.Property + "|" + rf.Expected.Signature + "|"))
@@ -81,7 +103,7 @@ func replayPath(verifDir string, rf *ReplayFile) string {
 		h.Write(b[:])
 	}
 	fmt.Fprintf(h, "|%d|%d|%s", rf.VerifSeed, rf.RunIndex, rf.Mode)
-	return filepath.Join(verifDir, "replays", rf.Property+"-"+hex.EncodeToString(h.Sum(nil))[:12]+".json")
+	return filepath.Join(replayDir(verifDir), rf.Property+"-"+hex.EncodeToString(h.Sum(nil))[:12]+".json")
 }
 
 // RepoFingerprint hashes the non-test Go sources of /repo (what the check was built from).
@@ -239,8 +261,8 @@ func Check(a CheckArgs) int {
 	workDir := filepath.Join(a.VerifDir, ".build", "work", fmt.Sprintf("%s-%s-%d", a.Prop, a.Tier, os.Getpid()))
 	os.MkdirAll(workDir, 0o755)
 	defer os.RemoveAll(workDir)
-	os.MkdirAll(filepath.Join(a.VerifDir, "replays"), 0o755)
-	os.MkdirAll(filepath.Join(a.VerifDir, "evidence"), 0o755)
+	os.MkdirAll(replayDir(a.VerifDir), 0o755)
+	os.MkdirAll(evidenceDir(a.VerifDir), 0o755)
 
 	fmt.Printf("check property=%s engine=%s tier=%s seed=%d workers=%d runs<=%d wall<=%ds\n",
 		a.Prop, info.Name, a.Tier, a.Seed, workers, spec.Runs, spec.WallSeconds)
@@ -407,7 +429,7 @@ func Check(a CheckArgs) int {
 	}
 	sort.Strings(sigs)
 
-	codeFP := RepoFingerprint("/repo")
+	codeFP := RepoFingerprint(RepoDir())
 	nViol := 0
 	var knownMatched []string
 	var violSummaries []map[string]any
@@ -532,9 +554,13 @@ func Check(a CheckArgs) int {
 	ev := &Evidence{PropertyID: a.Prop, Tier: a.Tier, Seed: a.Seed, Level: info.Level, Coverage: cov,
 		Assumptions: info.Assume, WallS: wall, Violations: nViol}
 	if !infra {
-		if err := writeJSONIndent(filepath.Join(a.VerifDir, "evidence", a.Prop+".json"), ev); err != nil {
+		if err := writeJSONIndent(filepath.Join(evidenceDir(a.VerifDir), a.Prop+".json"), ev); err != nil {
 			fmt.Fprintf(os.Stderr, "cannot write evidence: %v\n", err)
 			infra = true
+		}
+		if a.Tier == "thorough" {
+			// kept beside the per-run file, which the next quick run overwrites
+			writeJSONIndent(filepath.Join(evidenceDir(a.VerifDir), a.Prop+".thorough.json"), ev)
 		}
 	}
 	fmt.Printf("summary property=%s runs=%d evaluations=%d distinct_nontrivial=%d steps=%d violations=%d known=%d wall=%.1fs truncated=%v\n",
